@@ -31,7 +31,7 @@ BOUNDS = {
     "quick": {"payload bytes n": [1, 2, 3, 8, 24, 48], "address shapes": 3, "address digits": "all 8 digits of each device id symbolic", "annotations": "hint/err/comment of <= 4 symbolic printable chars (separator characters excluded)", "rssi": "3 symbolic chars"},
     "thorough": {"payload bytes n": "1..48", "address shapes": 3, "annotations": "<= 6 chars"},
 }
-OUTSIDE = ["the writer side of the packet log is C code (logging %-formatting, dt.fromtimestamp(dtm.timestamp())): the log line is composed in the harness the way _Logger.makeRecord/PKT_LOG_FMT compose it",
+OUTSIDE = ["the writer side of the packet log is C code (logging %-formatting, dt.fromtimestamp(dtm.timestamp())): for the symbolic queries the log line is composed in the harness the way _Logger.makeRecord/PKT_LOG_FMT compose it; the 'logwrite' query runs the real writer and reader on selector-chosen concrete time stamps (no symbolic values)",
            "hint texts containing '*'/'#' and error texts containing '#' (they would be a different annotation)", "payloads longer than 48 bytes (rejected by COMMAND_REGEX)"]
 STUBS = ["log line = asctime(26) + ' ' + rssi + ' ' + frame + [' < ' hint] + [' * ' err] + [' # ' comment] (from logger.py)", "lru_cache of pkt_addrs/id_to_address bypassed for symbolic address text",
          "TextIOWrapper subclass yielding the symbolic line"]
@@ -316,6 +316,94 @@ def h_log(ctx, n, kc):
     return "ok"
 
 
+def run_logwrite(choice, flag):
+    """the writer side, for real: Packet() logs itself through PKT_LOGGER (_Logger.makeRecord, _Formatter.formatTime,
+    PKT_LOG_FMT) with the packet time as the log time source; the captured line is read back by the real
+    FileTransport._reader.  Time-stamp fields and annotations are selectors (C code: nothing symbolic here)."""
+    import asyncio
+    import io
+    import logging
+    import types
+    from datetime import datetime as _dt
+
+    from ramses_tx import logger as LG
+    from ramses_tx import packet as PK
+    from ramses_tx import transport as T
+
+    us = choice("microsecond", [0, 1000, 123456, 500000, 999999])
+    sec = choice("second", [0, 7, 59])
+    dtm = _dt(2023, 3, 5, 14, 9, sec, us)
+    comment = " # a comment" if flag("with_comment") else ""
+    frame = "045  I --- 01:145038 --:------ 01:145038 30C9 003 0007D0"
+    captured = []
+
+    class H(logging.Handler):
+        def emit(self, record):
+            captured.append(self.format(record))
+
+    h = H()
+    h.setFormatter(LG.Formatter(fmt=LG.PKT_LOG_FMT + LG.BANDW_SUFFIX))
+    old_factory, old_disable, old_level = logging.getLogRecordFactory(), logging.root.manager.disable, PK.PKT_LOGGER.level
+    LG.set_logger_timesource(lambda: dtm)
+    logging.disable(logging.NOTSET)
+    PK.PKT_LOGGER.addHandler(h)
+    PK.PKT_LOGGER.setLevel(logging.DEBUG)
+    try:
+        pkt = PK.Packet.from_port(dtm, frame + comment)
+    finally:
+        PK.PKT_LOGGER.removeHandler(h)
+        PK.PKT_LOGGER.setLevel(old_level)
+        logging.setLogRecordFactory(old_factory)
+        logging.disable(old_disable)
+    if not captured:
+        return dtm, pkt, None, None
+    line = captured[0]
+    got = []
+
+    class _Tx:
+        _reading = True
+        _closing = False
+
+    async def go():
+        tx = _Tx()
+        tx._pkt_source = io.TextIOWrapper(io.BytesIO((line + "\n").encode("latin-1")), encoding="latin-1")
+        tx.loop = tx._loop = asyncio.get_running_loop()
+        tx._frame_read = types.MethodType(T._ReadTransport._frame_read, tx)
+        tx._pkt_read = lambda p: got.append(p)
+        await T.FileTransport._reader(tx)
+
+    loop = asyncio.new_event_loop()
+    try:
+        loop.run_until_complete(go())
+    finally:
+        loop.close()
+    return dtm, pkt, line, (got[0] if got else None)
+
+
+def _logwrite_problems(dtm, pkt, line, back):
+    if line is None:
+        return ["nothing was written to the packet log"]
+    if back is None:
+        return [f"log line {line!r} is not replayed"]
+    bad = []
+    if str(back) != str(pkt):
+        bad.append(f"replayed frame {str(back)!r}")
+    if back.dtm != dtm:
+        bad.append(f"replayed time stamp {back.dtm.isoformat()} (written for {dtm.isoformat()}, line {line[:26]!r})")
+    if (back.comment or "") != (pkt.comment or ""):
+        bad.append(f"comment {back.comment!r}")
+    return bad
+
+
+def h_logwrite(ctx):
+    import symx
+
+    dtm, pkt, line, back = run_logwrite(lambda n, o: symx.choice(ctx, n, o), lambda n: symx.flag(ctx, n))
+    bad = _logwrite_problems(dtm, pkt, line, back)
+    ctx.check(not bad, "C02:log:written-packet-is-replayed-equal-with-the-same-timestamp", info="; ".join(bad)[:200])
+    return "ok" if not bad else "differs"
+
+
 # ------------------------------------------------------------------------------------------
 
 
@@ -352,6 +440,8 @@ def queries(tier, seed):
     for n in ((1, 8, 48) if thorough else (1, 8)):
         for kc in (0, 3):
             qs.append(Query(f"log[n={n}|c{kc}]", lambda c, a=(n, kc): h_log(c, *a), {"h": "log", "n": n, "kc": kc}, group="log", max_secs=600, max_paths=100_000, weight=6))
+
+    qs.append(Query("logwrite", h_logwrite, {"h": "logwrite"}, group="log", max_secs=120, weight=1))
 
     def canary(c):
         from ramses_tx.command import Command
@@ -415,6 +505,14 @@ def replay(item):
     cex, prm, label = item["cex"], item["params"], item["label"]
     h = prm["h"]
     bad, desc = [], ""
+    if h == "logwrite":
+        def ch(n, o):
+            v = cex.get(n)
+            return next((x for x in o if x == v or str(x) == str(v)), o[0])
+
+        dtm, pkt, line, back = run_logwrite(ch, lambda n: bool(cex.get(n, False)))
+        bad = _logwrite_problems(dtm, pkt, line, back)
+        return {"reproduced": bool(bad), "observed": f"packet at {dtm.isoformat()} -> log line {line!r}: " + "; ".join(bad), "signature": "log: written-packet-is-replayed-equal-with-the-same-timestamp"}
     if h == "frame":
         f = _cfields(cex, prm["n"], prm["shape"], prm["sym_len"], prm.get("verb"), prm.get("seq"))
         frame = _frame(f)
